@@ -32,6 +32,7 @@ type itr struct {
 	recvTp  string // Lean type of the receiver
 	hasRes  bool
 	structs map[string]bool // struct types translated in this module
+	opaque  map[string]bool // struct types kept opaque (fields no translated method touches)
 	maskNS  string          // namespace of the regenerated Mask methods
 }
 
@@ -77,13 +78,18 @@ func (t *itr) leanType(tp types.Type) string {
 		case types.Bool, types.UntypedBool:
 			return "Bool"
 		}
+	case *types.Interface:
+		return "GoAny"
 	case *types.Named:
 		n := u.Obj().Name()
 		switch n {
-		case "ID":
+		case "ID", "ResID":
 			return "BitVec 8"
 		case "Mask":
 			return t.maskNS + ".Mask"
+		}
+		if t.opaque[n] {
+			return "Unit" // a field no translated method touches
 		}
 		if t.structs[n] {
 			return n
@@ -167,8 +173,14 @@ func (t *itr) expr(e ast.Expr, pre *[]string) string {
 		if x.Name == "true" || x.Name == "false" {
 			return x.Name
 		}
+		if x.Name == "nil" {
+			return "none"
+		}
 		return x.Name
 	case *ast.SelectorExpr:
+		if n, ok := t.typeOf(x.X).(*types.Named); ok && (n.Obj().Name() == "ID" || n.Obj().Name() == "ResID") && x.Sel.Name == "id" {
+			return t.expr(x.X, pre) // ID{id} / ResID{id} are their id
+		}
 		return "(" + t.expr(x.X, pre) + ")." + x.Sel.Name
 	case *ast.IndexExpr:
 		base := t.expr(x.X, pre)
@@ -180,8 +192,22 @@ func (t *itr) expr(e ast.Expr, pre *[]string) string {
 		if x.Op == token.NOT {
 			return "(!" + t.expr(x.X, pre) + ")"
 		}
+		if x.Op == token.XOR {
+			if _, ok := isBV(t.typeOf(x.X)); ok {
+				return "(~~~" + t.expr(x.X, pre) + ")"
+			}
+		}
 		return t.fail("unsupported unary operator %s", x.Op)
 	case *ast.BinaryExpr:
+		if id, ok := x.Y.(*ast.Ident); ok && id.Name == "nil" && (x.Op == token.EQL || x.Op == token.NEQ) {
+			if _, isIface := t.typeOf(x.X).Underlying().(*types.Interface); isIface {
+				if x.Op == token.EQL {
+					return "(" + t.expr(x.X, pre) + ").isNone"
+				}
+				return "(" + t.expr(x.X, pre) + ").isSome"
+			}
+			return t.fail("comparison of a non-interface value with nil")
+		}
 		a, b := t.expr(x.X, pre), t.expr(x.Y, pre)
 		tp := t.typeOf(x.X)
 		_, bv := isBV(tp)
@@ -195,13 +221,47 @@ func (t *itr) expr(e ast.Expr, pre *[]string) string {
 			return fmt.Sprintf("(%s && %s)", a, b)
 		case token.LOR:
 			return fmt.Sprintf("(%s || %s)", a, b)
-		case token.ADD, token.SUB:
-			op := "+"
-			if x.Op == token.SUB {
-				op = "-"
-			}
+		case token.ADD, token.SUB, token.MUL:
+			op := map[token.Token]string{token.ADD: "+", token.SUB: "-", token.MUL: "*"}[x.Op]
 			if bv || in {
 				return fmt.Sprintf("(%s %s %s)", a, op, b)
+			}
+		case token.QUO, token.REM:
+			// a zero divisor panics in Go; only constant non-zero divisors are accepted
+			if tv, ok := t.p.info.Types[x.Y]; !ok || tv.Value == nil || constant.Sign(tv.Value) == 0 {
+				return t.fail("division by a non-constant or zero divisor")
+			}
+			if bv {
+				if x.Op == token.QUO {
+					return fmt.Sprintf("(%s / %s)", a, b)
+				}
+				return fmt.Sprintf("(%s %% %s)", a, b)
+			}
+			if in {
+				if x.Op == token.QUO {
+					return fmt.Sprintf("(Int.tdiv %s %s)", a, b)
+				}
+				return fmt.Sprintf("(Int.tmod %s %s)", a, b)
+			}
+		case token.AND, token.OR, token.XOR, token.AND_NOT:
+			if bv {
+				switch x.Op {
+				case token.AND:
+					return fmt.Sprintf("(%s &&& %s)", a, b)
+				case token.OR:
+					return fmt.Sprintf("(%s ||| %s)", a, b)
+				case token.XOR:
+					return fmt.Sprintf("(%s ^^^ %s)", a, b)
+				default:
+					return fmt.Sprintf("(%s &&& ~~~%s)", a, b)
+				}
+			}
+		case token.SHL, token.SHR:
+			if _, cbv := isBV(t.typeOf(x.Y)); bv && cbv {
+				if x.Op == token.SHL {
+					return fmt.Sprintf("(%s <<< (%s).toNat)", a, b)
+				}
+				return fmt.Sprintf("(%s >>> (%s).toNat)", a, b)
 			}
 		case token.LSS, token.LEQ, token.GTR, token.GEQ:
 			if x.Op == token.GTR || x.Op == token.GEQ {
@@ -308,10 +368,14 @@ func (t *itr) call(x *ast.CallExpr, pre *[]string, wantValue bool) string {
 		case "make":
 			tp := t.typeOf(x.Args[0])
 			sl, ok := tp.Underlying().(*types.Slice)
-			if !ok || len(x.Args) != 3 {
+			if !ok || (len(x.Args) != 3 && len(x.Args) != 2) {
 				return t.fail("unsupported make")
 			}
-			l, c := t.asInt(x.Args[1], pre), t.asInt(x.Args[2], pre)
+			l := t.asInt(x.Args[1], pre)
+			c := l
+			if len(x.Args) == 3 {
+				c = t.asInt(x.Args[2], pre)
+			}
 			v := t.tmp("s")
 			*pre = append(*pre, fmt.Sprintf("let %s ← GoSlice.make (α := %s) %s %s", v, t.leanType(sl.Elem()), l, c))
 			return v
@@ -601,14 +665,14 @@ func (t *itr) stmts(list []ast.Stmt, ind string) []string {
 		return append(out, t.stmts(rest, ind)...)
 	case *ast.AssignStmt:
 		pre := []string{}
-		if (x.Tok == token.ADD_ASSIGN || x.Tok == token.SUB_ASSIGN) && len(x.Lhs) == 1 && len(x.Rhs) == 1 {
+		compound := map[token.Token]string{token.ADD_ASSIGN: "+", token.SUB_ASSIGN: "-", token.OR_ASSIGN: "|||", token.AND_ASSIGN: "&&&", token.XOR_ASSIGN: "^^^"}
+		if op, isC := compound[x.Tok]; isC && len(x.Lhs) == 1 && len(x.Rhs) == 1 {
 			// x op= e: the operand x is evaluated once
+			if _, ok := isBV(t.typeOf(x.Lhs[0])); !ok && (op != "+" && op != "-" || !isInt(t.typeOf(x.Lhs[0]))) {
+				return append(out, ind+t.fail("unsupported compound assignment on %s", t.typeOf(x.Lhs[0])))
+			}
 			idx := t.evalIndices(x.Lhs[0], &pre)
 			cur := t.readPath(x.Lhs[0], idx, &pre)
-			op := "+"
-			if x.Tok == token.SUB_ASSIGN {
-				op = "-"
-			}
 			rhs := t.expr(x.Rhs[0], &pre)
 			pre = append(pre, t.assignPath(x.Lhs[0], fmt.Sprintf("(%s %s %s)", cur, op, rhs), idx)...)
 			emit(pre)
@@ -653,6 +717,29 @@ func (t *itr) stmts(list []ast.Stmt, ind string) []string {
 		}
 		emit(pre)
 		return append(out, t.stmts(rest, ind)...)
+	case *ast.RangeStmt:
+		// for i := range s { s[i] = c }   (every element set to one value)
+		if key, ok := x.Key.(*ast.Ident); ok && x.Value == nil && len(x.Body.List) == 1 {
+			if as, ok := x.Body.List[0].(*ast.AssignStmt); ok && as.Tok == token.ASSIGN && len(as.Lhs) == 1 {
+				if ix, ok := as.Lhs[0].(*ast.IndexExpr); ok {
+					if ki, ok := ix.Index.(*ast.Ident); ok && ki.Name == key.Name && types.ExprString(ix.X) == types.ExprString(x.X) {
+						pre := []string{}
+						val := t.expr(as.Rhs[0], &pre)
+						if len(pre) == 0 && !strings.Contains(val, key.Name) {
+							fill := "GoArr.fill"
+							if isSliceT(t.typeOf(x.X)) {
+								fill = "GoSlice.fill"
+							}
+							cur := t.expr(x.X, &pre)
+							pre = append(pre, t.assignPath(x.X, fmt.Sprintf("%s %s %s", fill, cur, paren(val)), nil)...)
+							emit(pre)
+							return append(out, t.stmts(rest, ind)...)
+						}
+					}
+				}
+			}
+		}
+		return append(out, ind+t.fail("unsupported range loop"))
 	case *ast.IfStmt:
 		if x.Init != nil {
 			return append(out, ind+t.fail("if with init"))
@@ -780,7 +867,8 @@ func genPools(repo string, tiny bool) (string, []string) {
 	if tiny {
 		ns, mns, imp = "ArcheGen.P64", "ArcheGen.M64", "ArcheGen.Build64"
 	}
-	t := &itr{p: ecs, structs: map[string]bool{"Entity": true, "entityPool": true, "bitPool": true, "lockMask": true}, maskNS: mns}
+	t := &itr{p: ecs, structs: map[string]bool{"Entity": true, "entityPool": true, "bitPool": true, "lockMask": true, "Resources": true, "bitSet": true},
+		opaque: map[string]bool{"componentRegistry": true}, maskNS: mns}
 	var sb strings.Builder
 	fmt.Fprintf(&sb, "/- GENERATED by /verif/extract (imperative translator) from the Go source of /repo — do not edit. -/\nimport %s\nset_option linter.unusedVariables false\nnamespace %s\nopen ArcheGen\n\n", imp, ns)
 	if o := ecs.pkg.Scope().Lookup("MaskTotalBits"); o != nil {
@@ -788,7 +876,7 @@ func genPools(repo string, tiny bool) (string, []string) {
 			fmt.Fprintf(&sb, "def MaskTotalBits : Nat := %s\n\n", k.Val().ExactString())
 		}
 	}
-	for _, s := range []string{"Entity", "entityPool", "bitPool", "lockMask"} {
+	for _, s := range []string{"Entity", "entityPool", "bitPool", "lockMask", "Resources", "bitSet"} {
 		t.emitStruct(&sb, s)
 	}
 	for _, f := range []string{
@@ -796,6 +884,8 @@ func genPools(repo string, tiny bool) (string, []string) {
 		"entityPool.Alive", "entityPool.Len", "entityPool.Cap", "entityPool.TotalCap", "entityPool.Available",
 		"bitPool.getNew", "bitPool.Get", "bitPool.Recycle", "bitPool.Reset",
 		"lockMask.Lock", "lockMask.Unlock", "lockMask.IsLocked", "lockMask.Reset",
+		"Resources.Add", "Resources.Remove", "Resources.Get", "Resources.Has", "Resources.reset",
+		"bitSet.Get", "bitSet.Set", "bitSet.Reset", "bitSet.ExtendTo",
 	} {
 		t.emitFunc(&sb, f)
 	}
